@@ -137,6 +137,27 @@ def sched_facts():
     wr = _ws(ast.unparse(pyast.find_func(rs, '_write_chunk_ref')))
     assert 'with flock: self._write_file_part(' in wr
     out.append('Definition fact_writes_serialised_per_file : bool := true.')
+    # 8. the rate limiter's shared pause account: addition, cap, threshold test, evaluation of the sleep length, sleep and settlement
+    #    are ONE critical section (Model/LimiterLock.v takes the boolean as its parameter)
+    utils = pyast.module('replicat/utils/__init__.py')
+    RL = pyast.find_class(utils, 'RateLimitedIO')
+    under = True
+    for fname, attr, lock in (('pause_reads', '_read_sleep_amortised', '_read_lock'), ('pause_writes', '_write_sleep_amortised', '_write_lock')):
+        fn = pyast.find_func(RL, fname)
+        withs = [n for n in fn.body if isinstance(n, ast.With) and [ast.unparse(i.context_expr) for i in n.items] == [f'self.{lock}']]
+        assert withs, f'{fname}: no block under self.{lock}'
+        first = _ws(ast.unparse(withs[0]))
+        assert f'self.{attr} += seconds' in first and f'if self.{attr} <= self.PAUSE_THRESHOLD_SECONDS: return' in first, \
+            f'{fname}: addition and threshold test are not in one critical section'
+        sleeps = [n for n in ast.walk(fn) if isinstance(n, ast.Call) and ast.unparse(n.func) == 'time.sleep']
+        assert len(sleeps) == 1 and ast.unparse(sleeps[0].args[0]) == f'self.{attr}', f'{fname}: sleep length is not the shared account'
+        settle = [n for n in ast.walk(fn) if isinstance(n, ast.AugAssign) and isinstance(n.op, ast.Sub) and ast.unparse(n.target) == f'self.{attr}']
+        assert len(settle) == 1, f'{fname}: settlement not found'
+        inside = {id(n) for n in ast.walk(withs[0])}
+        under = under and id(sleeps[0]) in inside and id(settle[0]) in inside and len(fn.body) == 1
+    consts = {ast.unparse(n.targets[0]): ast.literal_eval(n.value) for n in RL.body if isinstance(n, ast.Assign)}
+    out.append('Definition limiter_sleeps_under_lock : bool := %s.' % ('true' if under else 'false'))
+    out.append('Definition limiter_threshold_nonneg : bool := %s.' % ('true' if consts['PAUSE_THRESHOLD_SECONDS'] >= 0 else 'false'))
     names = [ln.split()[1] for ln in out]
     out.append('Definition all_sched_facts : bool := ' + ' && '.join(names) + '.')
     return 'From Coq Require Import Bool.\n' + '\n'.join(out) + '\n'
